@@ -16,16 +16,16 @@ LEVEL = {
          "one struct family in this check (struct shapes are C17's)", TECH % ("", "")),
  "C10": ("model_checking", "6 C10", "StartOnly invariant for every keyframe list; FirstForward for all integers in Apalache; half of all replayed behaviours carry a start override and are compared at every tick.",
          "distinct positions per property at 0% (duplicates at 0% are left open by the property)", TECH % (" and Apalache", "")),
- "C11": ("model_checking", "6 C11", "The builder state machine adds keyframes in every order; OrderFree invariant; the as-found defect (boundary times before the sort) is a negative control that TLC must refute; every behaviour with non-ascending insertion order is replayed.",
-         "<=3 keyframes exhaustive, <=6 pseudo-random", TECH % ("", "")),
+ "C11": ("model_checking", "6 C11", "The builder state machine adds keyframes in every order; OrderFree invariant; the as-found defect (boundary times before the sort) is a negative control that TLC must refute; every behaviour with non-ascending insertion order is replayed, and for distinct positions the same keyframes in ascending / descending / described insertion order are compared bit for bit (also through a hand-wired timeline type).",
+         "<=3 keyframes exhaustive, <=40 pseudo-random", TECH % ("", "")),
  "C04": ("model_checking", "6 C04", "NoJump is an action property model-checked over all histories to the stated depth on 8 configurations (the as-found stale-pause defect is a negative control TLC must refute); every history is replayed on a real animator and current_values is compared bit for bit immediately before and after every set_state.",
          "tick >= 1/8 s exactly, tolerance passes at 1/64 s, 0.1 s and 512 ns; configuration pool of MC_Animator.tla (leg A) and random configurations (leg B); distinct keyframe positions per property", TECH % ("", " and by TLC validating logs of real animators with random configurations (leg B)")),
  "C05": ("model_checking", "6 C05", "Consistent + PauseRules model-checked over all histories; replay compares after every operation current_state, current_values against exact terms, and through the cfg(mina_verif) hook the internal clock and pause record.",
          "as C04", TECH % ("", " and by TLC validating logs of real animators with random configurations (leg B)")),
  "C06": ("model_checking", "6 C06", "In the model values are a function of (state, override, total ticks) (Consistent), so any partition gives the same result; in the replay a twin animator receives each advance split into 0 + a + b + 0 and must stay bit-identical (values, is_ended, clock, pause record), including after a 2^24-tick advance followed by single-tick frames.",
          "exactly representable steps (tick >= 1/8 s); pure float-rounding drift for non-representable steps is not decided", TECH % ("", " and by TLC validating logs of real animators with random configurations (leg B)")),
- "C07": ("model_checking", "6 C07", "EndedIff / EndedStable / TerminalWhenEnded / NeverEndedIfInfinite model-checked over all histories incl. advances landing exactly on the total duration; AfterTotalConstant unbounded in Apalache; is_ended compared after every replayed operation.",
-         "as C04; total durations on the exact tick grid", TECH % (" and Apalache", " and by TLC validating logs of real animators with random configurations (leg B)")),
+ "C07": ("model_checking", "6 C07", "EndedIff / EndedStable / TerminalWhenEnded / NeverEndedIfInfinite model-checked over all histories incl. advances landing exactly on the total duration; AfterTotalConstant unbounded in Apalache; is_ended compared after every replayed operation; endless timelines advanced until the clock saturates must never report completion.",
+         "as C04; total durations on the exact tick grid (0.1 s totals in a tolerance pass)", TECH % (" and Apalache", " and by TLC validating logs of real animators with random configurations (leg B)")),
  "C18": ("model_checking", "6 C18", "Every clause of C18 is an action property of the animate step in Bevy.tla, model-checked over all schedules x system orders (phase-skip defect is a negative control); TLC-enumerated and random schedules are run in a real App and TLC validates the logs; component contents are re-evaluated with the real timelines at the predicted evaluation points.",
          "tick = 1/8 s; 7 entity configurations + random ones from a pool of 14 timelines; component values judged via the real Timeline::update before the end and against terminal values stated with the pool at or after it", TECH % ("", " and by TLC validating traces recorded from a real Bevy App (leg B)")),
  "C19": ("model_checking", "6 C19", "Select/chain steps carry the C19 clauses as action properties (untyped-event defect is a negative control); real App logs with selector, chain (incl. cycles) and one or two animated component types are validated by TLC with the system order left open.",
@@ -36,10 +36,10 @@ LEVEL = {
          "8 component shapes; equal-rank repeats (None / Times(0)) accept any maximal element", TECH % ("", "")),
  "C20": ("model_checking", "6 C20", "Unbounded repeat count in Apalache (u32 wrap is a negative control); exact-tick traces incl. Times(u32::MAX) and the f32 neighbours of every boundary recorded in debug AND release builds must be identical and accepted by TLC; object histories with huge repeat counts replayed in both profiles; supplementary arbitrary-f32 sweep (no panic, finite, in range, equal digests).",
          "domain: exact total duration representable in f32; the arbitrary-f32 sweep is an oracle-only supplement", TECH % (" and Apalache", " and by TLC validating traces recorded from the real code in both build profiles (leg B)")),
- "C13": ("model_checking", "6 C13", "Model facts on the published control points (end points, x-monotone, range/monotone for non-Back, mirror relations); each real easing is compared with the exact definition table and with the as-found parameter evaluation (known finding per Bezier easing: calc evaluates the curve at parameter t = x); the dense sweep of the real calc is validated by TLC against the laws; custom easings bit for bit.",
+ "C13": ("model_checking", "6 C13", "Model facts on the published control points (end points, x-monotone, range/monotone for non-Back, mirror relations); each real easing is compared with the exact definition table and with the as-found parameter evaluation (known finding per Bezier easing: calc evaluates the curve at parameter t = x); the dense sweep of the real calc is validated by TLC against the laws; custom easings bit for bit, alone and as default / per-keyframe easings of a timeline.",
          "65 exact curve points per easing, tolerance 2e-4; laws on a 1/1024 grid + 2^-k neighbourhoods; open known findings listed in known_findings.json", TECH % ("", " and by TLC validating logs of the real functions (leg B)")),
- "C14": ("model_checking", "6 C14", "Laws model-checked on the exact integer model for all 8-bit pairs; every recorded result of the real lerp for all numeric types (exact values, scaled wide values, f32 neighbours of 0, 1/2 and 1, mixed magnitudes) is validated by TLC; panics are data and rejected.",
-         "see assumptions in the evidence: exactness rule tied to f32 representability; Quat not claimed", TECH % ("", " and by TLC validating logs of the real functions (leg B)")),
+ "C14": ("model_checking", "6 C14", "Laws model-checked on the exact integer model for all 8-bit pairs; every recorded result of the real lerp for all numeric types (exact values, scaled wide values up to every type limit, f32 neighbours of 0, 1/2 and 1, lerp(a,a,x), mixed magnitudes) is validated by TLC; panics are data and rejected; a result the trace specification accepts only under the as-found f32 rounding of intermediates is reported as the known finding C14-f32-intermediate-rounding.",
+         "see assumptions in the evidence: exact where every f32 intermediate is exact and below 2^22 for lerp(a,a,x); one open known finding; Quat not claimed", TECH % ("", " and by TLC validating logs of the real functions (leg B)")),
  "C15": ("model_checking", "6 C15", "TLC generates sentences of the timeline! grammar with their documented Reading (invariant under reordering) and predictions; the real macro compiles every one; macro-built == builder twin bit for bit (metadata, values), == the spec's predictions, merged lists == MergedTimeline::of(twins); one ill-formed variant per class must be rejected by rustc.",
          "argument alphabet of MC_Grammar.tla; ms / half-percent grids; compile-time rejection is rustc's verdict", TECH % ("", "")),
  "C16": ("model_checking", "6 C16", "TLC generates animator! blocks, their Reading as an Animator.tla configuration and a 30-step history with predicted observations; the real macro compiles every block; macro-built animator == builder twin bit for bit after every operation, == the spec's predictions.",
